@@ -25,9 +25,9 @@ static Fix& fix() {
 
 // ---------------------------------------------------------------- symbolic model
 struct Sym {
-  bool populated = false; std::string base; int conv = 0; int convax[2] = {0, 0}; /* convolutions per ORIGINAL axis */ bool perm = false; std::vector<std::pair<std::string, std::string>> aux;
-  std::string str() const { std::string s = populated ? base + (conv ? vf::fmt("*conv(%d,%d)", convax[0], convax[1]) : "") + (perm ? "*perm" : "") : "EMPTY"; for (auto& a : aux) s += "+" + a.first + "=" + a.second; return s; }
-  std::string core() const { return populated ? base + vf::fmt("/%d,%d/", convax[0], convax[1]) + (perm ? "p" : "") : "EMPTY"; }
+  bool populated = false; std::string base; int conv = 0; std::string convseq; /* ORIGINAL axes convolved, in order: the float rounding of the coefficients depends on the order */ bool perm = false; std::vector<std::pair<std::string, std::string>> aux;
+  std::string str() const { std::string s = populated ? base + (conv ? "*conv[" + convseq + "]" : "") + (perm ? "*perm" : "") : "EMPTY"; for (auto& a : aux) s += "+" + a.first + "=" + a.second; return s; }
+  std::string core() const { return populated ? base + "/" + convseq + "/" + (perm ? "p" : "") : "EMPTY"; }
   int ndim() const { return !populated ? 0 : (base == "G2" ? 2 : 1); }
 };
 struct World { Sym o[2]; std::string str() const { return o[0].str() + " | " + o[1].str(); } };
@@ -49,7 +49,7 @@ static int model_step(World& w, const Op& op) {
     case O_WKEY2: wk(s.aux, "K2", "42"); return 0;
     case O_WKEY_BAD: return 1;
     case O_RKEY1: for (size_t i = 0; i < s.aux.size(); i++) if (s.aux[i].first == "K1") { s.aux.erase(s.aux.begin() + i); break; } return 0;
-    case O_CONVOLVE: if (!s.populated || s.conv >= 2) return -1; s.conv++; s.convax[(s.perm && s.ndim() >= 2) ? 1 : 0]++; return 0;   // dimension 0 of the current labelling
+    case O_CONVOLVE: if (!s.populated || s.conv >= 2) return -1; s.conv++; s.convseq += ((s.perm && s.ndim() >= 2) ? '1' : '0'); return 0;   // dimension 0 of the current labelling
     case O_PERMUTE: if (!s.populated) return -1; if (s.ndim() >= 2) s.perm = !s.perm; return 0;
     case O_PERMUTE_BAD: if (!s.populated) return -1; return 1;
     case O_MOVE_CONSTRUCT: t = s; s = Sym(); return 0;
